@@ -259,7 +259,11 @@ def rule_r6(ctx):
     from ..rows import GenRule, effect_rows
     from ..terms import K, T, destruct
 
-    rows = [r for r in effect_rows(ctx, btc, GenRule(ctx, btc.module, raising={"memoryview": "builtins.TypeError", "iter": "builtins.TypeError"}), None) if r.returns]
+    from ..rows import helper_closure as _hc6
+    # private helpers that are not generators (an extracted `iter(body)` with its error message, ...) are interpreted in place
+    inl6 = frozenset(q_ for q_ in _hc6(m, [btc]) - {btc.qual}
+                     if not any(isinstance(n_, (ast.Yield, ast.YieldFrom)) for n_ in astq.walk_fn(m.funcs[q_].node)))
+    rows = [r for r in effect_rows(ctx, btc, GenRule(ctx, btc.module, inline=inl6, raising={"memoryview": "builtins.TypeError", "iter": "builtins.TypeError"}), None) if r.returns]
     B = f"p:{btc.params()[0]}"
     seen = set()
     for r in rows:
